@@ -15,6 +15,7 @@ import (
 	"os"
 	"path/filepath"
 	"regexp"
+	"sort"
 	"strconv"
 	"strings"
 	"time"
@@ -760,8 +761,15 @@ func (tx *Transaction) ProcessConnection(client string, cPort int, server string
 // ExtractGetArguments transforms an url encoded string to a map and creates ARGS_GET
 func (tx *Transaction) ExtractGetArguments(uri string) {
 	data := urlutil.ParseQuery(uri, '&')
-	for k, vs := range data {
-		for _, v := range vs {
+	// Iterate in a fixed order: AddGetRequestArgument drops arguments once
+	// SecArgumentsLimit is reached, which ones must not depend on map order.
+	keys := make([]string, 0, len(data))
+	for k := range data {
+		keys = append(keys, k)
+	}
+	sort.Strings(keys)
+	for _, k := range keys {
+		for _, v := range data[k] {
 			tx.AddGetRequestArgument(k, v)
 		}
 	}
